@@ -607,6 +607,10 @@ impl TDigestMut {
             centroids_weight = add_weight(centroids_weight, weight)?;
             centroids.push(Centroid { mean, weight });
         }
+        // buffered values count towards the total weight, too
+        if centroids_weight.checked_add(num_buffered as u64).is_none() {
+            return Err(Error::deserial("malformed data: total weight overflows"));
+        }
         let mut buffer = Vec::with_capacity(num_buffered);
         for _ in 0..num_buffered {
             let value = if is_f32 {
@@ -706,6 +710,9 @@ impl TDigestMut {
                 cursor.read_u32_be().map_err(make_error("<unused>"))?;
                 let num_centroids =
                     cursor.read_u16_be().map_err(make_error("num_centroids"))? as usize;
+                if num_centroids > cursor.remaining() / 8 {
+                    return Err(Error::insufficient_data_of("compat float format", "centroids"));
+                }
                 let mut total_weight = 0u64;
                 let mut centroids = Vec::with_capacity(num_centroids);
                 for _ in 0..num_centroids {
